@@ -81,14 +81,20 @@ theorem slotsInFrame_arms (f : Facts) (h : slotsInFrame f = true) :
   intro a ha hc
   unfold slotsInFrame at h
   simp only [Bool.and_eq_true, List.all_eq_true] at h
-  exact armOk_slot_frame a hc (h.1.1.1.1.1.1.2 a ha)
+  exact armOk_slot_frame a hc (h.1.1.1.1.1.1.1.1.2 a ha)
 
 theorem slotsInFrame_data (f : Facts) (h : slotsInFrame f = true) :
     ∀ d ∈ f.dataObjects, d.writable = some false ∧ d.tls = some false := by
   intro d hd
   unfold slotsInFrame at h
   simp only [Bool.and_eq_true, List.all_eq_true] at h
-  have := h.2 d hd
+  have := h.1.1.2 d hd
   simpa [dataOk] using this
+
+theorem slotsInFrame_host (f : Facts) (h : slotsInFrame f = true) :
+    f.hostInvokes ≠ [] ∧ ∀ i ∈ f.hostInvokes, i.retIsLocal = true ∧ i.clean = true := by
+  unfold slotsInFrame at h
+  simp only [Bool.and_eq_true, List.all_eq_true, Bool.not_eq_true', List.isEmpty_eq_false_iff] at h
+  exact ⟨h.1.2, fun i hi => h.2 i hi⟩
 
 end RotoV.Conc.Frame
